@@ -25,6 +25,8 @@ SCENARIOS = {
     'one-aborts': dict(clients=['SCU1', 'SCU2'], fail=('SCU2', 'abort')),
     'one-disconnects-mid-pdu': dict(clients=['SCU1', 'SCU2'], fail=('SCU2', 'disconnect')),
     'shared-client-ae': dict(clients=['SCU1', 'SCU1b'], fail=None, shared=True),
+    'one-rejected': dict(clients=['SCU1', 'SCU2'], fail=None, reject='SCU2'),
+    'rejected-then-next': dict(clients=['SCU2', 'SCU1'], fail=None, reject='SCU2'),
     'three-clients': dict(clients=['SCU1', 'SCU2', 'SCU3'], fail=None),
 }
 
@@ -51,6 +53,10 @@ def make(scn_name, only=None):
         mem_store_scp.sop_classes = [CT, MR]
 
         class Srv(applicationentity.AE):
+            def on_association_request(self, asce, rq):
+                if spec.get('reject') and str(rq.calling_ae_title) == spec['reject']:
+                    raise exceptions.AssociationRejectedError(1, 1, 3)
+
             def on_receive_find(self, context, ds):
                 server_log.append(('find', str(ds.PatientName)))
                 return iter([(dsgen.make('a', i), statuses.C_FIND_PENDING) for i in range(2)])
@@ -73,7 +79,9 @@ def make(scn_name, only=None):
                 else:
                     cae = applicationentity.ClientAE(title, c['ts'], c['maxlen']).add_scu(sopclass.storage_scu, c['classes']) \
                         .add_scu(sopclass.verification_scu).add_scu(sopclass.qr_find_scu)
+                import contextvars
                 ids = [pynetdicom2._new_msg_id() for _ in range(2)]
+                ids += [contextvars.copy_context().run(pynetdicom2._new_msg_id) for _ in range(2)]
                 try:
                     with cae.request_association({'aet': 'SCP', 'address': 'srv', 'port': 104}) as asce:
                         out['negotiated'] = (asce.max_pdu_length, tuple(sorted((k, str(v.sop_class), str(v.supported_ts))
@@ -99,6 +107,8 @@ def make(scn_name, only=None):
                             q.PatientName = 'FROM-' + title
                             out['find'] = [(None if d is None else str(d.PatientID), int(s)) for d, s in asce.get_scu(FIND)(q, c['msg0'] + 50)]
                     out['ended'] = 'released'
+                except exceptions.AssociationRejectedError as exc:
+                    out['ended'] = ('rejected', exc.result, exc.source, exc.diagnostic)
                 except exceptions.NetDICOMError as exc:
                     out['ended'] = type(exc).__name__
                 except KeyboardInterrupt:
@@ -198,6 +208,8 @@ def judge(scn, out):
     for title in spec['clients']:
         base = 'SCU1' if title == 'SCU1b' else title
         if spec['fail'] and spec['fail'] == (title, 'disconnect'):
+            continue
+        if spec.get('reject') == title:
             continue
         insts = CLIENTS[base]['insts'][:1] if (spec['fail'] and spec['fail'][0] == title) else CLIENTS[base]['insts']
         want += [(base, i + ('.9' if title == 'SCU1b' else '')) for i, _, _ in insts]
